@@ -1,4 +1,6 @@
 """C25 - reconnecting to Typha converges without stale or lost resources (syncersv1/dedupebuffer)."""
+import os
+
 from vlib import pipeline
 
 
@@ -48,7 +50,7 @@ P = {
                 "workers": 4, "timeout": 900, "thorough_timeout": 1700, "heap": "4g"},
                ],
     "gen": {"module": "Gen_Dedupe", "cfg": "Gen_cover.cfg", "thorough_cfg": "Gen_cover2.cfg", "workers": 1,
-            "max": 1200, "thorough_max": 30000, "timeout": 600, "thorough_timeout": 1700},
+            "max": 800, "thorough_max": 30000, "timeout": 600, "thorough_timeout": 1700},
     "driver": {"cmd": "dedupe"},
     "n_random": (300, 6000),
     "trace": {"module": "T_Dedupe", "cfg": "T_Dedupe.cfg", "timeout": 900, "heap": "4g"},
@@ -70,7 +72,18 @@ P = {
 
 
 def run(ctx):
-    pipeline.standard_check(ctx, P)
+    P1 = dict(P)
+    if os.environ.get("VERIF_NODESIGN"):      # development aid for mutation campaigns: legs A+B only
+        P1["design"] = []
+    pipeline.standard_check(ctx, P1)
+    if not ctx.replay and not ctx.violations:
+        # long random walks of I_Dedupe chosen by TLC (-simulate, weighted so that pulls/restarts are frequent)
+        P2 = dict(P)
+        P2["design"] = []
+        P2["gen"] = {"module": "Gen_Dedupe", "cfg": "Gen_sim.cfg", "simulate": {"num": 120, "depth": 200},
+                     "thorough_simulate": {"num": 3000, "depth": 200}, "timeout": 600, "thorough_timeout": 1700}
+        P2["n_random"] = (0, 0)
+        pipeline.standard_check(ctx, P2)
     if not ctx.replay and not ctx.violations:
         if not ctx.quick:
             # second design config: pull batch size 2 and two-update producer batches (batch splitting)
